@@ -657,7 +657,7 @@ fn state_models(st: &mut Stats, tier: Tier) {
                         let r = guarded(|| -> Result<Arc<StateModel>, String> {
                             let app = SearchApp {
                                 search_algorithm: SearchAlgorithm::Dijkstra,
-                                directed_graph: Arc::new(crate::world::net::Net { n: 1, edges: vec![] }.graph()),
+                                directed_graph: Arc::new(crate::world::net::Net { n: 1, edges: vec![], xy: None }.graph()),
                                 state_model: Arc::new(StateModel::new(configured.clone())),
                                 traversal_model_service: Arc::new(DeclaringService { feats: model_feats.clone() }),
                                 access_model_service: Arc::new(NoAccessModel {}),
